@@ -388,6 +388,9 @@ func envInt(name string, def int) int {
 func check(id, tier string) int {
 	start := time.Now()
 	pc := propOf(id)
+	if v := os.Getenv("VERIF_FAMILIES"); v != "" {
+		pc.Families = strings.Split(v, ",") // experiments only: restrict the exploration to some families
+	}
 	race := len(pc.RaceFamilies) > 0
 	dir, hash := ensureBuild(false)
 	if race {
@@ -759,10 +762,21 @@ func replay(path string) int {
 	var rf struct {
 		Property  string `json:"property"`
 		Violation struct {
+			Prop  string `json:"property"`
 			Class string `json:"class"`
+			Sig   string `json:"sig"`
 		} `json:"violation"`
 	}
 	json.Unmarshal(b, &rf)
+	// Observations that match a known finding are soft during exploration (the run goes on and may then
+	// meet the violation being replayed), so they must be soft here too - unless the file IS the
+	// reproducer of a known finding.
+	knownArg := filepath.Join(verifDir, "known_findings.json")
+	for _, f := range loadKnown().Findings {
+		if f.Property == rf.Violation.Prop && f.Class == rf.Violation.Class && strings.HasPrefix(rf.Violation.Sig, f.Sig) {
+			knownArg = "/nonexistent"
+		}
+	}
 	isRace := rf.Violation.Class == "data-race"
 	if isRace {
 		ensureBuild(true)
@@ -771,7 +785,7 @@ func replay(path string) int {
 	os.MkdirAll(jobsDir, 0o755)
 	defer os.RemoveAll(jobsDir)
 	abs, _ := filepath.Abs(path)
-	j := job{Mode: "replay", Prop: rf.Property, Known: "/nonexistent", Out: filepath.Join(jobsDir, "replay.json"), Replay: abs, Tree: hash}
+	j := job{Mode: "replay", Prop: rf.Property, Known: knownArg, Out: filepath.Join(jobsDir, "replay.json"), Replay: abs, Tree: hash}
 	rbin, procs := filepath.Join(dir, "sim.test"), 1
 	if isRace {
 		rbin, procs = filepath.Join(dir, "sim-race.test"), 4
